@@ -64,6 +64,7 @@ struct Exec
     int plan[8];                 // AnsSpec per socket write call index
     int clientInputAtBlock = 0;  // the client sends bytes on the same connection while a write is blocked
     unsigned foreign       = 0;  // bit i: write i is issued as if from a thread other than the event loop's
+    bool chain             = false; // two writes: the second is issued by the completion of the first, which then flushes the transport
 };
 
 struct PromiseObs
@@ -85,6 +86,8 @@ static std::string exec_desc(const Exec& e)
     d += "]";
     if (e.clientInputAtBlock)
         d += e.clientInputAtBlock == 2 ? " +client-request-while-blocked(handler streams and flushes)" : " +client-input-while-blocked";
+    if (e.chain)
+        d += " [write 1 is issued by the completion of write 0, which then calls flush()]";
     if (e.foreign)
     {
         d += " issued-from-another-thread=[";
@@ -131,7 +134,7 @@ static void run_exec(const Exec& e, vr::Ctx& ctx, uint64_t& steps)
     bool clientInputSent = false;
     // the streaming handler flushes twice (flush(), ends()): each flush is one more write attempt on the blocked
     // socket within the batch, which is not a busy-wait
-    W.extra_attempts_allowed = e.clientInputAtBlock == 2 ? 2 : 0;
+    W.extra_attempts_allowed = e.clientInputAtBlock == 2 ? 2 : e.chain ? 1 : 0;
     for (int i = 0; i < 8; ++i)
     {
         switch (e.plan[i])
@@ -153,13 +156,22 @@ static void run_exec(const Exec& e, vr::Ctx& ctx, uint64_t& steps)
         }
     }
     int idle = 0;
-    for (int s = 0; s < 120; ++s)
-    {
-        while (issued < e.kinds.size() && e.issueAt[issued] <= s)
+    std::function<void(size_t)> issue_one;
+    issue_one = [&](size_t i)
         {
-            size_t i        = issued++;
+            ++issued;
             PromiseObs* o   = &obs[i];
-            auto onOk       = [o, sfd](ssize_t v) { o->settled++; o->fulfilled++; o->value = v; o->acceptedAtFulfil = accepted_bytes(sfd); };
+            Tcp::Transport* tr = loop.transport.get();
+            bool chainHere  = e.chain && i == 0;
+            auto* issueNext = &issue_one;
+            auto onOk       = [o, sfd, chainHere, issueNext, tr](ssize_t v) {
+                o->settled++; o->fulfilled++; o->value = v; o->acceptedAtFulfil = accepted_bytes(sfd);
+                if (chainHere)
+                {
+                    (*issueNext)(1);
+                    tr->flush();
+                }
+            };
             auto onErr      = [o](std::exception_ptr) { o->settled++; o->rejected++; };
             const Kind& k   = kKinds[e.kinds[i]];
             std::string dat = content(e.kinds[i], (int)i);
@@ -202,7 +214,11 @@ static void run_exec(const Exec& e, vr::Ctx& ctx, uint64_t& steps)
                 bool slack = ((e.kinds[i] + i) & 1) != 0;
                 loop.transport->asyncWrite(sfd, RawBuffer(slack ? dat + "~SLACK~" : dat, dat.size())).then(onOk, onErr);
             }
-        }
+        };
+    for (int s = 0; s < 120; ++s)
+    {
+        while (issued < (e.chain ? 1u : e.kinds.size()) && e.issueAt[issued] <= s)
+            issue_one(issued);
         bool progressed = loop.step();
         ++steps;
         if (W.held.count(sfd) && W.held[sfd])
@@ -368,6 +384,17 @@ static void case_c06(uint64_t idx, vr::Ctx& ctx)
             }
         }
         e.foreign = 0;
+        // two writes, the second issued (and the transport flushed) by the completion of the first: one schedule per list
+        if (e.kinds.size() == 2 && c.sched == 0 && !gDeep)
+        {
+            e.chain              = true;
+            e.clientInputAtBlock = 0;
+            ctx.note("c06 " + exec_desc(e));
+            run_exec(e, ctx, steps);
+            ++execs;
+            ctx.poll_reports();
+            e.chain = false;
+        }
         if (ctx.case_violations > 6)
             break;
     }
